@@ -62,8 +62,13 @@ var (
 	poisonTime = time.Date(1999, 1, 1, 0, 0, 0, 0, time.UTC) // value the guest tries to set; never produced by the kernel
 )
 
+var cleanupRoot string // temp root of this run; removed before a harness error exits
+
 func must(err error) {
 	if err != nil {
+		if cleanupRoot != "" {
+			os.RemoveAll(cleanupRoot)
+		}
 		fw.Fatalf("harness I/O: %v", err)
 	}
 }
